@@ -3,11 +3,16 @@
 //! properties it serves (C01 map behaviour, C02 identifiers, C04 drops, C05 memory, C06 round trips,
 //! C13 structure), over an alphabet that touches the first, the last and the byte-boundary positions.
 
-use crate::arena;
-use crate::comp::{self, Comp, Small, TokErr};
-use crate::s4::{Checker, Failure, Prop};
-use brood::entity;
-use std::collections::{BTreeMap, BTreeSet};
+pub use brood;
+pub use mccore;
+pub use mccore::arena;
+pub use mccore::comp::{self, Comp, Small, TokErr};
+pub use mccore::s4::{Checker, Failure, Prop};
+pub use brood::entity;
+pub use serde;
+pub use serde_assert;
+pub use serde_json;
+pub use std::collections::{BTreeMap, BTreeSet};
 
 pub type Id = (usize, u64);
 
@@ -70,11 +75,12 @@ pub struct WideOutcome {
     pub allocs: u64,
 }
 
+#[macro_export]
 macro_rules! wide_harness {
     ($modname:ident, $n:expr, [$($t:ident = $k:expr),*], positions = [$($pos:expr),*], shapes = [$([$($s:ident),*]),*]) => {
         pub mod $modname {
-            use super::*;
-            use brood::{query::{result, Views}, Query, Registry, World};
+            use $crate::*;
+            use $crate::brood::{query::{result, Views}, Query, Registry, World};
             pub const N: usize = $n;
             $(pub type $t = Small<{ 100 + $k }>;)*
             pub type Reg = Registry!($($t),*);
@@ -135,7 +141,7 @@ macro_rules! wide_harness {
                             let mut id = None;
                             $(
                                 if shape == k && id.is_none() {
-                                    id = Some(self.w.insert(brood::entity!($(mk::<$s>(pos_of::<$s>(), &mut row)),*)));
+                                    id = Some(self.w.insert($crate::brood::entity!($(mk::<$s>(pos_of::<$s>(), &mut row)),*)));
                                 }
                                 shape += 1;
                             )*
@@ -149,7 +155,7 @@ macro_rules! wide_harness {
                             let mut ids = None;
                             $(
                                 if shape == k && ids.is_none() {
-                                    ids = Some(self.w.extend(brood::entities!(($(mk::<$s>(pos_of::<$s>(), &mut rows[0])),*), ($(mk::<$s>(pos_of::<$s>(), &mut rows[1])),*))));
+                                    ids = Some(self.w.extend($crate::brood::entities!(($(mk::<$s>(pos_of::<$s>(), &mut rows[0])),*), ($(mk::<$s>(pos_of::<$s>(), &mut rows[1])),*))));
                                 }
                                 shape += 1;
                             )*
@@ -231,7 +237,7 @@ macro_rules! wide_harness {
                             }
                         }
                         WOp::RtTok(human) => {
-                            use serde::{Deserialize, Serialize};
+                            use $crate::serde::{Deserialize, Serialize};
                             let ser = serde_assert::Serializer::builder().is_human_readable(human).build();
                             let r = self.w.serialize(&ser).map_err(|e| format!("{e:?}")).and_then(|t| {
                                 let shown = format!("{:?}", t);
@@ -292,7 +298,7 @@ macro_rules! wide_harness {
                     for w in [Some(&self.w), self.aux.as_ref()] {
                         let Some(w) = w else { out.push(0xee); continue };
                         let d = w.verif_dump();
-                        let mut arch: Vec<&brood::verif::ArchetypeDump> = d.archetypes.iter().collect();
+                        let mut arch: Vec<&$crate::brood::verif::ArchetypeDump> = d.archetypes.iter().collect();
                         arch.sort_by(|a, b| a.id_bytes.cmp(&b.id_bytes));
                         let rank: BTreeMap<usize, usize> = arch.iter().enumerate().map(|(i, a)| (a.id_addr, i)).collect();
                         out.push(arch.len() as u8);
@@ -314,7 +320,7 @@ macro_rules! wide_harness {
                 }
             }
 
-            pub fn audit(d: &brood::verif::Dump, m: &Model, chk: &mut Checker, k: &str, which: &str) {
+            pub fn audit(d: &$crate::brood::verif::Dump, m: &Model, chk: &mut Checker, k: &str, which: &str) {
                 let mut bad = |key: &str, detail: String| chk.fail(Prop::C13, &format!("{} op={}", key, k), format!("[{}] {}", which, detail));
                 let nbytes = (N + 7) / 8;
                 let mut by_addr: BTreeMap<usize, usize> = BTreeMap::new();
@@ -388,7 +394,7 @@ macro_rules! wide_harness {
                     }
                     if !disabled {
                         ex.check(&mut chk, lastk);
-                        hash = crate::util::hash128(&ex.canon());
+                        hash = $crate::mccore::util::hash128(&ex.canon());
                     }
                     let Exec { w, aux, m, maux } = std::mem::ManuallyDrop::into_inner(ex);
                     drop(aux);
@@ -403,7 +409,7 @@ macro_rules! wide_harness {
                     }
                 }));
                 if r.is_err() {
-                    let msg = crate::util::take_last_panic();
+                    let msg = $crate::mccore::util::take_last_panic();
                     for &p in props { chk.fail(p, &format!("panic op={}", lastk), msg.clone()); }
                 }
                 let mut fails: Vec<Failure> = arena::with_system(|| chk.fails.iter().map(|f| Failure { prop: f.prop, key: f.key.as_str().to_owned(), detail: f.detail.as_str().to_owned() }).collect());
@@ -422,12 +428,3 @@ macro_rules! wide_harness {
     };
 }
 
-wide_harness!(w8, 8, [T0 = 0, T1 = 1, T2 = 2, T3 = 3, T4 = 4, T5 = 5, T6 = 6, T7 = 7],
-    positions = [0, 3, 6, 7],
-    shapes = [[T0], [T7], [T0, T7], [T3, T6, T7]]);
-wide_harness!(w10, 10, [T0 = 0, T1 = 1, T2 = 2, T3 = 3, T4 = 4, T5 = 5, T6 = 6, T7 = 7, T8 = 8, T9 = 9],
-    positions = [0, 3, 8, 9],
-    shapes = [[T0], [T9], [T0, T3, T9], [T7, T8]]);
-wide_harness!(w16, 16, [T0 = 0, T1 = 1, T2 = 2, T3 = 3, T4 = 4, T5 = 5, T6 = 6, T7 = 7, T8 = 8, T9 = 9, T10 = 10, T11 = 11, T12 = 12, T13 = 13, T14 = 14, T15 = 15],
-    positions = [0, 7, 8, 15],
-    shapes = [[T0], [T15], [T0, T7, T8], [T3, T15]]);
